@@ -7,7 +7,7 @@ From Coq Require Import List NArith.
 Local Open Scope string_scope.
 Local Open Scope list_scope.
 Import ListNotations.
-From UV Require Import Py.Val Py.Str Py.Utf8 Py.UrlLib Py.Pct Gen.Tables Ural.Quote Spec.C14 Proofs.QuoteFacts Proofs.UnquoteFacts Proofs.UnquoteAscii Proofs.UnquoteRuns.
+From UV Require Import Py.Val Py.Str Py.Utf8 Py.UrlLib Py.Pct Gen.Tables Ural.Quote Spec.C14 Proofs.QuoteFacts Proofs.UnquoteFacts Proofs.UnquoteAscii Proofs.UnquoteRuns Proofs.UnquoteHigh.
 
 (* safely_quote: pure ASCII, every pre-existing escape kept, everything else escaped unless
    unreserved or '/'; hence same decoded bytes; quoting twice = quoting once *)
@@ -60,29 +60,26 @@ Theorem C14_unquote_plain_text : forall unsafe s,
   mem 37%N s = false -> mem 32%N s = false -> safely_unquote unsafe s = s.
 Proof. exact safely_unquote_plain_text. Qed.
 
-(* the main statement for the four unquoters, proved for EVERY string (raw non-ASCII text included) whose escapes
-   stand for ASCII bytes -- every delimiter / '%' / space / control / double-decoding / text-becomes-escape case lives
-   there: the output re-tokenises into kept escapes and once-decoded characters exactly as the decider `unquote_ok` of
-   Spec/C14.v demands.  Strings with escapes >= %80 (utf-8 flushing of the model) are decided by the harness with the
-   same decider. *)
-Theorem C14_unquote_low_escapes : forall s, forallb lowP (tokens s) = true ->
+(* THE MAIN STATEMENT for the four unquoters, for every string: the output re-tokenises into kept escapes and
+   once-decoded characters exactly as the decider `unquote_ok` of Spec/C14.v demands -- an escape is either kept as it
+   is or decoded once to a character the component does not have to keep escaped (a whole printable utf-8 sequence
+   for non-ASCII characters); a raw character is kept (a raw space becomes %20); nothing else happens: no text becomes
+   an escape, nothing is decoded twice, the decoded bytes are the same, no delimiter / '%' / space / control character
+   is created, undecodable bytes stay escaped. *)
+Theorem C14_unquote : forall s,
   unquote_ok R_auth s (safely_unquote_auth_item s) = true /\
   unquote_ok R_path s (safely_unquote_path s) = true /\
   unquote_ok R_query s (safely_unquote_query_item s) = true /\
   unquote_ok R_fragment s (safely_unquote_fragment s) = true.
-Proof. exact four_unquoters_low_ok. Qed.
+Proof. exact four_unquoters_ok. Qed.
 
-(* and for any table of characters to keep escaped that contains '%', against any required set it covers *)
-Theorem C14_unquote_low_escapes_general : forall (unsafe required : list N) (s : str),
-  mem 37%N unsafe = true -> (forall c, mem c required = true -> mem c unsafe = true) -> mem 32%N required = true ->
-  forallb lowP (tokens s) = true ->
+(* and for any table of characters to keep escaped that contains '%', against any required set of ASCII characters
+   it covers *)
+Theorem C14_unquote_general : forall (unsafe required : list N) (s : str),
+  mem 37%N unsafe = true -> (forall c, mem c required = true -> mem c unsafe = true) ->
+  (forall c, mem c required = true -> (c < 128)%N) -> mem 32%N required = true ->
   unquote_ok required s (safely_unquote unsafe s) = true.
-Proof. intros unsafe required s H1 H2 H3 H4. exact (safely_unquote_low_ok unsafe required H1 H2 s H3 H4). Qed.
-
-(* the hypothesis is about escapes only: raw text of any kind is allowed *)
-Example C14_low_escapes_example :
-  forallb lowP (tokens (lit "é%2541 €%2F%zz%%34%31")) = true /\ forallb lowP (tokens (lit "%C3%A9")) = false.
-Proof. vm_compute. split; reflexivity. Qed.
+Proof. intros unsafe required s H1 H2 H3 H4. exact (safely_unquote_ok unsafe required H1 H2 H3 s H4). Qed.
 
 Example C14_examples :
   safely_unquote_path (lit "%2541") = lit "%2541" /\
@@ -108,6 +105,6 @@ Print Assumptions C14_untok_tokens.
 Print Assumptions C14_tokens_untok.
 Print Assumptions C14_delims_ok.
 Print Assumptions C14_unquote_no_raw_space.
-Print Assumptions C14_unquote_low_escapes.
-Print Assumptions C14_unquote_low_escapes_general.
+Print Assumptions C14_unquote.
+Print Assumptions C14_unquote_general.
 Print Assumptions C14_unquote_plain_text.
